@@ -81,6 +81,14 @@ def run(rep: Report) -> None:
         rep.check(not d, "engines-equal", inst, f"{a.where} vs {b.where}",
                   "" if not d else f"at position {d[0][0]}: numpy = {d[0][1][:350]}  |  casadi = {d[0][2][:350]}",
                   key=f"eq|{prim}|{config}")
+        # python-level branching on a value inside one engine: every branch must agree
+        for r, other in ((a, b), (b, a)):
+            for t, ra, asm, tr in r.alt_terms:
+                dd = [("-", "raises " + str(ra), "")] if (t is None) else PC.equal_terms(t, other.term, n1, nz_eq)
+                cond = "; ".join(E.fmt(x, 60) for x in asm)
+                rep.check(not dd, "engines-equal", f"{inst} on the {r.impl} branch where [{cond}] is {tr}", r.where,
+                          "" if not dd else f"{r.impl} branches in python on a value; on this branch it computes "
+                          f"{dd[0][1][:300]} | the other engine: {dd[0][2][:300]}", key=f"eq-branch|{prim}|{config}|{r.impl}")
         # definedness on the admissible domain (both)
         for r in (a, b):
             nz = PC.prim_normalizer(True)
